@@ -210,3 +210,28 @@ impl<V> DotBuilder for PathAndQueryMatcher<V> {
         Some(node_name)
     }
 }
+
+#[cfg(feature = "verif")]
+impl<T> PathAndQueryMatcher<T> {
+    /// Canonical (sorted) rendering of the matcher state (verification hook)
+    pub fn verif_snapshot(&self) -> String {
+        let mut statics: Vec<String> = self
+            .static_rules
+            .iter()
+            .map(|(path, routes)| {
+                let mut ids: Vec<&String> = routes.keys().collect();
+                ids.sort();
+
+                format!("{path:?}=>{ids:?}")
+            })
+            .collect();
+        statics.sort();
+
+        format!(
+            "PQ{{count:{},static:[{}],tree:{:?}}}",
+            self.count,
+            statics.join(","),
+            self.regex_tree_rule.verif_snapshot(&|route| route.id().to_string())
+        )
+    }
+}
